@@ -50,6 +50,11 @@ pub fn gate_model(ix: &Index) -> Result<GateModel, String> {
             if let Event::Note(n) = e {
                 if let Some(f) = n.strip_prefix("field-assign ") {
                     let fname = f.replace(' ', "").trim_start_matches("self.").to_string();
+                    // a table indexed by the comparison trait itself (`self.cmp[op as usize] = true`): one flag per trait
+                    if let (Some(i), true) = (fname.find("[$"), fname.ends_with(".CompareOp]")) {
+                        for tn in TRAITS { field_of.insert(format!("{}[CompareOp::{tn}]", &fname[..i]), tn.to_string()); }
+                        continue;
+                    }
                     if let Some(w) = &what { field_of.insert(fname, w.clone()); }
                 }
             }
@@ -98,7 +103,7 @@ pub fn gate_model(ix: &Index) -> Result<GateModel, String> {
                 gate[a][d as usize] = parsed;
             }
         }
-        if !found { return Err(format!("no successful path of the constructor under derived set {{{}}}", set_to_traits(d))); }
+        if !found { return Err(format!("no successful path of the constructor under derived set {{{}}} (flags: {:?}; sample path: {})", set_to_traits(d), field_of, outs.first().map(|(st, _)| crate::model::cond_str(&st.cond).chars().take(300).collect::<String>()).unwrap_or_default())); }
     }
     let f = ctor.clone();
     uns.extend(ev.unsupported.borrow().clone());
